@@ -852,13 +852,14 @@ def judge (cfg : Cfg) (items : List RItem) (rq out : Json) : ReqVerdict :=
   if !(e.status == cStatus && e.size == natAt client "body") then mk false "status-or-size-not-what-the-client-got" else
   let seenURL := fld upJ "url"
   if e.upstreamAddr != bytesAt seenURL "host" then mk false "upstream-addr-differs" else
-  if strOf uj "str" != strOf seenURL "str" then
-    mk false (if r.url.forceQuery && (urlOfText seenURL).rawQuery == [] then "upstream-url-empty-query" else "upstream-url-differs") else
   let wantR : URL := { scheme := e.requestURL.scheme, host := r.host, path := r.url.path, rawPath := r.url.rawPath,
                        forceQuery := r.url.forceQuery, rawQuery := r.url.rawQuery }
   if strOf rj "str" != textOf (urlString wantR) then mk false "request-url-differs" else
   let idOk := cfg.requestID == [] || (uuidShaped seenId && textOf (hget e.header (canonKey true cfg.requestID)) == seenId)
   if !idOk then mk false "request-id" else
+  -- (last: D-finding "upstream-url-empty-query" must not hide anything checked above)
+  if strOf uj "str" != strOf seenURL "str" then
+    mk false (if r.url.forceQuery && (urlOfText seenURL).rawQuery == [] then "upstream-url-empty-query" else "upstream-url-differs") else
   mk true (match up with
     | .response info _ _ => if info.isEmpty then "logged" else "logged-after-informational"
     | .error _ => "upstream-error")
